@@ -190,6 +190,14 @@ Forward(q) ==
   /\ Un(state)
   /\ Lbl("forward", q, IF dead THEN ERR ELSE R(TRUE, {}, {}, "relayed"))
 
+\* Several clients forward raw requests at the same moment (yubiagent.ServeAgent forwards every request type it does
+\* not know, one goroutine per connection).  Forward is a critical section like every other operation, so the storm
+\* is a sequence of Forward steps: nothing changes, every caller gets the answer to its own request, all return.
+ForwardStorm ==
+  /\ "fstorm" \in Ops
+  /\ Un(state)
+  /\ Lbl("fstorm", "", IF dead THEN ERR ELSE R(TRUE, {}, {}, "relayed"))
+
 \* Extension relays a custom extension request through the agent client (no lock-flag check in the code);
 \* whether the underlying agent supports it is the environment's choice.  by = "relayed": the caller got the
 \* answer to its own request.
@@ -300,7 +308,7 @@ FaultAllowed ==
 
 NextOps == \/ Extension
            \/ \E mode \in {"up", "noup"}, kind \in FaultKinds \cup {"none"} : Construct(mode, kind)
-           \/ List \/ Signers \/ RemoveAll \/ Close \/ SignersUse
+           \/ List \/ Signers \/ RemoveAll \/ Close \/ SignersUse \/ ForwardStorm
            \/ \E i \in Ids : Sign(i) \/ Add(i) \/ Remove(i)
            \/ \E c \in Certs : AddHard(c)
            \/ \E k \in Keys : AddHardKey(k)
@@ -318,10 +326,14 @@ e == last'
 NF == e.f.kind = "none"
 Cnt(r, i) == IF i \in r.l2 THEN 2 ELSE IF i \in r.l1 THEN 1 ELSE 0
 B(x) == IF x THEN 1 ELSE 0
-ShimOps == {"list", "signers", "sign", "add", "addhard", "remove", "removeall", "lock", "unlock", "close", "forward", "extension"}
+ShimOps == {"list", "signers", "sign", "add", "addhard", "remove", "removeall", "lock", "unlock", "close", "forward", "extension", "fstorm"}
+\* an operation that does not return delivers none of the results the properties speak about (the harness watchdog
+\* records it as by = "hang")
+Returned == e.op \in ShimOps => e.res.by # "hang"
 
 \* C07 - no expired / premature / keyless certificate is listed or used; they are purged
 C07_Step ==
+  /\ Returned
   /\ (e.op \in {"list", "signers"} /\ NF /\ e.res.ok /\ ~locked) =>
         /\ \A c \in e.res.l1 \cap Certs : Valid(c, now)
         /\ \A c \in mem' : Valid(c, now)
@@ -335,6 +347,8 @@ C07_Step ==
 
 \* C08 - a locked shim discloses and changes nothing; only the passphrase unlocks
 C08_Step ==
+  /\ Returned
+  /\ (locked /\ e.op = "unlock" /\ NF /\ ~dead /\ e.arg = upass) => e.res.ok     \* only the passphrase unlocks - and it does
   /\ (locked /\ e.op \in ShimOps) =>
         /\ (e.op = "list" => (e.res.ok /\ e.res.l1 = {}))
         /\ (e.op \in {"sign", "signers", "add", "remove", "removeall", "addhard", "lock", "close"} => ~e.res.ok)
@@ -354,6 +368,7 @@ C08_Step ==
 \* C09 - no-upstream mode hides the underlying agent's YSSHCA certificates, nothing else
 Vis == UList \ ExpAgent(UList)          \* what the underlying agent can contribute to a listing
 C09_Step ==
+  /\ Returned
   /\ (e.op \in {"list", "signers"} /\ NF /\ e.res.ok /\ ~locked) =>
         LET v == IF ulocked' THEN {} ELSE under' IN
         /\ noUp  => \A c \in Certs \cap Yss : Cnt(e.res, c) = B(c \in mem')
@@ -405,7 +420,7 @@ C10_Live ==
   /\ (e.op = "removeall" /\ NF /\ ~locked) =>
         IF ~dead /\ ~ulocked THEN (e.res.ok /\ under' = {} /\ mem' = {})
         ELSE (~e.res.ok /\ under' = under /\ mem' \subseteq mem)
-  /\ (e.op = "forward" /\ NF) => (UNCHANGED <<under, mem>> /\ (~dead => (e.res.ok /\ e.res.by = "relayed")))
+  /\ (e.op \in {"forward", "fstorm"} /\ NF) => (UNCHANGED <<under, mem>> /\ (~dead => (e.res.ok /\ e.res.by = "relayed")))
   /\ (e.op = "extension") => (UNCHANGED <<under, mem>> /\ (e.res.ok => e.res.by = "relayed"))
   \* construction (shimagent.New): lists the underlying agent only in no-upstream mode; a failure of
   \* that request is an error, never a crash
@@ -418,7 +433,7 @@ C10_Live ==
 
 \* C10 - hardware certificates are bound to a held key; everything else passes through intact
 C10_Step ==
-  /\ ~e.res.pan
+  /\ ~e.res.pan /\ Returned
   \* what the shim does once its connection to the underlying agent is gone (Close, or a fault that ended the
   \* connection) is not stated beyond "an error, never a crash, never discards a still-valid in-memory
   \* certificate": nothing appears, valid in-memory certificates stay unless the operation is a removal
